@@ -36,14 +36,15 @@ type Cmd struct {
 
 // Case is one task with a timeout.
 type Case struct {
-	TimeoutMs int    `json:"timeout_ms"`
-	Before    []Cmd  `json:"before,omitempty"`
-	Cmds      []Cmd  `json:"cmds"`
-	After     []Cmd  `json:"after,omitempty"`
-	Allow     bool   `json:"allow"`
-	NVar      int    `json:"nvar,omitempty"`    // variations of the task (0 = none)
-	OverAt    int    `json:"over_at,omitempty"` // the variation in which over-runners over-run (they are instant in the others)
-	Via       string `json:"via,omitempty"`     // "" = TaskRunner.Run, "scheduler" = the task is the only stage of a pipeline
+	TimeoutMs   int    `json:"timeout_ms"`
+	Before      []Cmd  `json:"before,omitempty"`
+	Cmds        []Cmd  `json:"cmds"`
+	After       []Cmd  `json:"after,omitempty"`
+	Allow       bool   `json:"allow"`
+	NVar        int    `json:"nvar,omitempty"`        // variations of the task (0 = none)
+	OverAt      int    `json:"over_at,omitempty"`     // the variation in which over-runners over-run (they are instant in the others)
+	Interactive bool   `json:"interactive,omitempty"` // the task is interactive: its commands read the runner's stdin, an open pipe nobody writes to
+	Via         string `json:"via,omitempty"`         // "" = TaskRunner.Run, "scheduler" = the task is the only stage of a pipeline
 }
 
 func (c Case) canon() string { b, _ := json.Marshal(c); return string(b) }
@@ -69,6 +70,8 @@ func textVar(c Cmd, id string, tmo int, log, pids string, overAt int) string {
 	case "part":
 		ms := tmo * 6 / 10
 		s += fmt.Sprintf("sleep %d.%03d; ", ms/1000, ms%1000)
+	case "ext":
+		s += "/bin/sleep 0.02; /bin/echo ext > /dev/null; "
 	case "sleep":
 		s += fmt.Sprintf("sh -c 'echo $$ >> %s; exec sleep 30'; ", pids)
 	case "busy":
@@ -190,6 +193,16 @@ func runCase(c Case, root string, scale int) (err error, timing bool) {
 		return rerr, false
 	}
 	r.Stdout, r.Stderr = io.Discard, io.Discard
+	if c.Interactive {
+		pr, pw, perr := os.Pipe()
+		if perr != nil {
+			return perr, false
+		}
+		defer pw.Close()
+		defer pr.Close()
+		r.Stdin = pr
+		tk.Interactive = true
+	}
 	e := model(c)
 	bound := e.budget + time.Duration(scale)*1500*time.Millisecond
 	done := make(chan error, 1)
@@ -342,6 +355,9 @@ func record(c Case) {
 	if c.Via != "" {
 		cls = append(cls, "via="+c.Via)
 	}
+	if c.Interactive {
+		cls = append(cls, "interactive-with-idle-stdin")
+	}
 	drv.Eval(cls...)
 	if nt {
 		drv.NonTrivial(c.canon())
@@ -352,7 +368,7 @@ func genCmds(rt *rapid.T, label string, min, max int, overOK bool) []Cmd {
 	n := rapid.IntRange(min, max).Draw(rt, label+"_n")
 	out := make([]Cmd, n)
 	for i := range out {
-		kinds := []string{"instant", "instant", "part"}
+		kinds := []string{"instant", "instant", "part", "ext"}
 		if overOK {
 			kinds = append(kinds, "sleep", "busy", "ignore")
 		}
@@ -377,6 +393,7 @@ func TestRandom(t *testing.T) {
 		if rapid.IntRange(0, 2).Draw(rt, "as-stage") == 0 {
 			c.Via = "scheduler"
 		}
+		c.Interactive = rapid.IntRange(0, 3).Draw(rt, "interactive") == 0
 		drv.Sample(c)
 		decide(rt, "random", c, root)
 	})
@@ -438,6 +455,9 @@ func TestMatrix(t *testing.T) {
 		cases = append(cases, Case{TimeoutMs: 300, Via: "scheduler", Before: []Cmd{{kind}}, Cmds: []Cmd{{"instant"}}})
 	}
 	cases = append(cases, Case{TimeoutMs: 500, Via: "scheduler", Cmds: []Cmd{{"part"}, {"part"}, {"part"}}})
+	// interactive tasks (stdin is an idle pipe): external commands that finish early, an over-runner
+	cases = append(cases, Case{TimeoutMs: 800, Interactive: true, Cmds: []Cmd{{"ext"}, {"ext"}, {"instant"}}})
+	cases = append(cases, Case{TimeoutMs: 300, Interactive: true, Cmds: []Cmd{{"ext"}, {"sleep"}, {"instant"}}})
 	for i, c := range cases {
 		if i%nsh != idx {
 			continue
